@@ -14,14 +14,20 @@ import (
 	"crypto/sha256"
 	"fmt"
 	"io"
+	golog "log"
 	"net"
+	"os"
 	"sort"
 	"strings"
+	"sync/atomic"
 	"testing"
 	"time"
 
 	"github.com/refraction-networking/conjure/internal/vlib"
 	"github.com/refraction-networking/conjure/pkg/core"
+	"github.com/refraction-networking/conjure/pkg/phantoms"
+	"github.com/refraction-networking/conjure/pkg/station/geoip"
+	"github.com/refraction-networking/conjure/pkg/station/log"
 	"github.com/refraction-networking/conjure/pkg/transports"
 	"github.com/refraction-networking/conjure/pkg/transports/wrapping/min"
 	"github.com/refraction-networking/conjure/pkg/transports/wrapping/obfs4"
@@ -72,6 +78,103 @@ type c02World struct {
 	objs map[int]c02Obj
 	// how the NEXT sweep runs (nil: one uninterrupted call)
 	sweep *c02Sweep
+	// tunnels that are still open (closed before some later operation, or when the world ends)
+	tunnels []*c02Tunnel
+}
+
+type c02Tunnel struct {
+	r      *c02Reg
+	client net.Conn
+	done   chan struct{}
+}
+
+// connect: a client that holds the secret of registration r connects to r's phantom. Its genuine first
+// flight goes through the real WrapConnection (one more offer: case + oracle). When the station accepts
+// it, what handleNewTCPConn does next is done: MarkActive on the registration the transport answered with,
+// then lib.Proxy on that object — the covert refuses (the tunnel is counted and finishes at once) or the
+// tunnel stays open (it is closed before some later operation or at the end of the world). For obfs4,
+// whose handshake the byte-stream harness does not complete, the registration the station's own look-up
+// (getRegistrations: the valid ones of that phantom) shows for the identifier stands in for the match.
+// Ground truth: a connection makes a tracked registration used; a tunnel — open, finished, many — has no
+// say in when the registration is forgotten.
+func (w *c02World) connect(out *vlib.Out, r *c02Reg, now int64, open bool) {
+	w.advance(now)
+	rd := w.rm.registeredDecoys
+	f := w.flight(r.sec, r.tr, r.prefixID, 0)
+	d := w.offerObj(out, c02Offer{kind: "connection", ph: r.ph, tr: r.tr, data: f, owner: r, genuine: true, pid: r.prefixID})
+	if d == nil && r.tr == pb.TransportType_Obfs4 {
+		d = rd.getRegistrations(net.ParseIP(c08Phantoms[r.ph]))[string(w.identBytes(r))]
+	}
+	if d == nil {
+		out.Count("connection:not-accepted")
+		return
+	}
+	id := w.identOf(d)
+	phs := d.PhantomIp.String()
+	w.rm.MarkActive(d)
+	w.mops = append(w.mops, fmt.Sprintf("m,%s,%s,%d", phs, id, int(d.Transport)))
+	for _, g := range w.regs {
+		if g.tracked && c08Phantoms[g.ph] == phs && g.ident == id {
+			g.used = true
+		}
+	}
+	before := atomic.LoadInt64(&d.tunnelCount)
+	c1, c2 := net.Pipe()
+	if !open || !realTunnelAllowed() {
+		d.Covert = c08Covert.refused
+		c2.Close()
+		func() {
+			defer func() { _ = recover() }()
+			Proxy(d, c1, w.rm.Logger)
+		}()
+		c1.Close()
+		w.mops = append(w.mops, fmt.Sprintf("P,%s,%s", phs, id), fmt.Sprintf("Q,%s,%s", phs, id))
+		out.Count("connection:tunnel-finished")
+	} else {
+		d.Covert = c08Covert.open
+		acc := atomic.LoadInt64(&c08Covert.accepted)
+		tn := &c02Tunnel{r: r, client: c2, done: make(chan struct{})}
+		go func() {
+			defer close(tn.done)
+			defer func() { _ = recover() }()
+			Proxy(d, c1, w.rm.Logger)
+		}()
+		for deadline := time.Now().Add(2 * time.Second); time.Now().Before(deadline); {
+			if atomic.LoadInt64(&d.tunnelCount) > before && atomic.LoadInt64(&c08Covert.accepted) > acc {
+				break
+			}
+			select {
+			case <-tn.done:
+				deadline = time.Now()
+			default:
+				time.Sleep(50 * time.Microsecond)
+			}
+		}
+		c08Covert.opened++
+		w.tunnels = append(w.tunnels, tn)
+		w.mops = append(w.mops, fmt.Sprintf("P,%s,%s", phs, id))
+		out.Count("connection:tunnel-open")
+	}
+	if atomic.LoadInt64(&d.tunnelCount) != before+1 {
+		out.Count("connection:tunnel-not-counted")
+	}
+}
+
+// closeTunnels ends the open tunnels (all of them, or the oldest one).
+func (w *c02World) closeTunnels(all bool) {
+	for len(w.tunnels) > 0 {
+		tn := w.tunnels[0]
+		w.tunnels = w.tunnels[1:]
+		tn.client.Close()
+		select {
+		case <-tn.done:
+		case <-time.After(5 * time.Second):
+		}
+		w.mops = append(w.mops, fmt.Sprintf("Q,%s,%s", c08Phantoms[tn.r.ph], tn.r.ident))
+		if !all {
+			return
+		}
+	}
 }
 
 // c02Sweep: the sweep is interrupted before its midAt-th removal by a connection that is matched to
@@ -101,13 +204,114 @@ func c02Keys(i int) (priv, pub [32]byte) {
 	return
 }
 
+// c02Live: the liveness module of the manager (never asked: the harness delivers registrations to the
+// registry directly).
+type c02Live struct{}
+
+func (c02Live) PhantomIsLive(addr string, port uint16) (bool, error) { return false, nil }
+func (c02Live) PrintAndReset(*log.Logger)                            {}
+func (c02Live) PrintStats(*log.Logger)                               {}
+func (c02Live) Reset()                                               {}
+
+// c02Manager: a registration manager of the harness's own (no file of another property's harness is needed
+// to build this one).
+func c02Manager() *RegistrationManager {
+	os.Setenv("PHANTOM_SUBNET_LOCATION", "./test/phantom_subnets.toml")
+	conf := &RegConfig{EnableIPv4: true, EnableIPv6: true}
+	conf.ParseBlocklists()
+	sel, err := phantoms.NewPhantomIPSelector()
+	if err != nil {
+		panic(err)
+	}
+	gdb, _ := geoip.New(nil)
+	return &RegistrationManager{
+		PhantomSelector:   sel,
+		GeoIP:             gdb,
+		RegConfig:         conf,
+		RegistrationStats: newRegistrationStats(),
+		Logger:            log.New(io.Discard, "", golog.Ldate),
+		registeredDecoys:  NewRegisteredDecoys(),
+		LivenessTester:    c02Live{},
+	}
+}
+
+// ---- secrets. 0..999: the fixed ones of the registry harness. From c02SpecialBase on: secrets FOUND by search
+// so that the transport identifier they give (HMAC output for min / prefix, key material for obfs4 — raw
+// bytes, any value) contains a byte that is a separator somewhere: in a composite map key, a log line, a
+// path, a C string. The registry must treat identifiers as opaque: such a registration is tracked, matched,
+// and — the clause this dimension is for — forgotten like any other.
+const c02SpecialBase = 1000
+
+var c02Bytes = []byte{'|', 0x00, '\n', ',', ';', ':', '/', ' ', '%', 0xff}
+
+var c02Special = map[int][]byte{}
+
+func c02Secret(sec int) []byte {
+	if sec < c02SpecialBase {
+		return c08Secret(sec)
+	}
+	s, ok := c02Special[sec]
+	if !ok {
+		panic(fmt.Sprintf("secret %d was never searched", sec))
+	}
+	return s
+}
+
+// specialSec returns the number of a secret whose identifier for transport tr has byte c02Bytes[bi] —
+// pos 0: somewhere, 1: as its first byte, 2: as its last byte, 3: at least twice; variant: different secrets
+// with the same quality.
+func (w *c02World) specialSec(tr pb.TransportType, bi, pos, variant int) int {
+	sec := c02SpecialBase + (((int(tr)%8)*16+bi)*4+pos)*4 + variant
+	if _, ok := c02Special[sec]; ok {
+		return sec
+	}
+	want := c02Bytes[bi]
+	for n := 0; ; n++ {
+		h := sha256.Sum256([]byte(fmt.Sprintf("verif special secret %d %d", sec, n)))
+		c02Special[sec] = h[:]
+		id := w.identBytes(&c02Reg{sec: sec, tr: tr})
+		if len(id) == 0 {
+			panic("empty identifier")
+		}
+		ok := false
+		switch pos {
+		case 0:
+			ok = bytes.IndexByte(id, want) >= 0
+		case 1:
+			ok = id[0] == want
+		case 2:
+			ok = id[len(id)-1] == want
+		default:
+			ok = bytes.Count(id, []byte{want}) >= 2
+		}
+		if ok {
+			return sec
+		}
+	}
+}
+
+// pickSec: a secret for a registration of transport tr — one of the fixed ones (number i), or (one in three)
+// one whose identifier carries a separator byte.
+func (w *c02World) pickSec(r *vlib.Rand, tr pb.TransportType, i int) int {
+	if !r.Chance(1, 3) {
+		return i
+	}
+	bi := r.Intn(len(c02Bytes))
+	pos := 0
+	if bi < 2 && r.Chance(1, 3) {
+		pos = 1 + r.Intn(3) // first / last / twice: only for '|' and NUL (256 times the search)
+	}
+	return w.specialSec(tr, bi, pos, i%4)
+}
+
 func newC02World(nkeys int) *c02World {
+	c08CovertSetup()
 	w := &c02World{flights: map[string][]byte{}, objs: map[int]c02Obj{}}
 	for i := 0; i < nkeys; i++ {
 		priv, pub := c02Keys(i)
 		w.privs, w.pubs = append(w.privs, priv), append(w.pubs, pub)
 	}
-	w.rm = c09Manager(&c09Live{live: map[string]bool{}})
+	w.rm = c02Manager()
 	rd := w.rm.registeredDecoys
 	var err error
 	w.ptr, err = prefix.Default(w.privs)
@@ -123,7 +327,7 @@ func newC02World(nkeys int) *c02World {
 }
 
 func (w *c02World) mkDecoy(r *c02Reg) *DecoyRegistration {
-	keys, err := core.GenSharedKeys(uint(core.CurrentClientLibraryVersion()), c08Secret(r.sec), r.tr)
+	keys, err := core.GenSharedKeys(uint(core.CurrentClientLibraryVersion()), c02Secret(r.sec), r.tr)
 	if err != nil {
 		panic(err)
 	}
@@ -198,9 +402,7 @@ func (w *c02World) find(ph, sec int, tr pb.TransportType) *c02Reg {
 // shifts only, so anything the code writes into registrationTime is preserved).
 func (w *c02World) advance(now int64) {
 	if d := now - w.lastNow; d > 0 {
-		for _, to := range w.rm.registeredDecoys.decoysTimeouts {
-			to.registrationTime = to.registrationTime.Add(-time.Duration(d) * time.Second)
-		}
+		c08Shift(w.rm.registeredDecoys, time.Duration(d)*time.Second)
 		w.lastNow = now
 	}
 }
@@ -248,15 +450,15 @@ func (w *c02World) applyObj(kind byte, ph, sec int, tr pb.TransportType, prefixI
 			m := opt.mark
 			mid = func() { w.apply('m', m.ph, m.sec, m.tr, m.prefixID, 0, now) }
 			o.mid = mid
-			o.before = func(handled []*DecoyTimeout) {
+			o.before = func(handled [][2]string) {
 				// the removals the loop has made already decided on the state they found: a connection that
 				// arrives now finds those registrations forgotten
 				var ks []string
-				for _, to := range handled {
-					id := vlib.Hex([]byte(to.identifier))
-					ks = append(ks, to.decoy+","+id)
+				for _, k := range handled {
+					id := vlib.Hex([]byte(k[1]))
+					ks = append(ks, k[0]+","+id)
 					for _, r := range w.regs {
-						if r.tracked && c08Phantoms[r.ph] == to.decoy && r.ident == id && expired(r) {
+						if r.tracked && c08Phantoms[r.ph] == k[0] && r.ident == id && expired(r) {
 							r.tracked, r.valid, r.used = false, false, false
 						}
 					}
@@ -354,7 +556,7 @@ func (w *c02World) flightK(sec int, tr pb.TransportType, prefixID int32, flush i
 	if f, ok := w.flights[key]; ok {
 		return f
 	}
-	secret := c08Secret(sec)
+	secret := c02Secret(sec)
 	_, stationPub := c02Keys(kj) // kj may name a key the station does not hold
 	rdr := hkdf.New(sha256.New, secret, []byte("conjureconjureconjureconjure"), nil)
 	seed := make([]byte, 16)
@@ -445,7 +647,10 @@ func trName(tr pb.TransportType) string {
 }
 
 // offer runs one byte stream through the real transport and records model line + oracle.
-func (w *c02World) offer(out *vlib.Out, o c02Offer) {
+func (w *c02World) offer(out *vlib.Out, o c02Offer) { w.offerObj(out, o) }
+
+// offerObj: … and returns the registration object the transport answered with when a tunnel would open.
+func (w *c02World) offerObj(out *vlib.Out, o c02Offer) (accepted *DecoyRegistration) {
 	rd := w.rm.registeredDecoys
 	t := rd.transports[o.tr].(WrappingTransport)
 	ip := net.ParseIP(c08Phantoms[o.ph])
@@ -501,7 +706,7 @@ func (w *c02World) offer(out *vlib.Out, o c02Offer) {
 	var matched *c02Reg
 	if dr, ok := reg.(*DecoyRegistration); ok && dr != nil {
 		for _, r := range w.regs {
-			if r.ph == o.ph && r.tr == dr.Transport && bytes.Equal(c08Secret(r.sec), dr.Keys.SharedSecret) && dr.PhantomIp.Equal(ip) {
+			if r.ph == o.ph && r.tr == dr.Transport && bytes.Equal(c02Secret(r.sec), dr.Keys.SharedSecret) && dr.PhantomIp.Equal(ip) {
 				matched = r
 			}
 		}
@@ -535,11 +740,12 @@ func (w *c02World) offer(out *vlib.Out, o c02Offer) {
 	opened := err == nil && reg != nil && wrapped != nil
 	if pan != nil {
 		out.OracleFail("C02:panic", fmt.Sprintf("WrapConnection panicked: %v", pan), model)
-		return
+		return nil
 	}
 	if !opened {
-		return
+		return nil
 	}
+	accepted, _ = reg.(*DecoyRegistration)
 	fail := func(sig, what string) { out.OracleFail(sig, what+" [offer "+o.kind+"]", model) }
 	// the one registration that may legitimately be matched: same secret, on the phantom the
 	// connection was made to, of the transport the flight was built for and offered to, having
@@ -569,6 +775,7 @@ func (w *c02World) offer(out *vlib.Out, o c02Offer) {
 	case !legit.valid:
 		fail("C02:unvalidated-accepted", fmt.Sprintf("registration %d was never validated", legit.rid))
 	}
+	return accepted
 }
 
 func flip(b []byte, bit int) []byte {
@@ -584,9 +791,15 @@ func c02RunWorld(out *vlib.Out, r *vlib.Rand, nOffers int) {
 	nph, nsec := r.Range(1, 3), r.Range(1, 3)
 	now := int64(0)
 	nops := r.Range(2, 9)
+	defer w.closeTunnels(true)
+	// the secrets of this world: fixed ones, and (one in three) ones whose identifier carries a separator byte
+	secs := make([]int, nsec)
+	for i := range secs {
+		secs[i] = w.pickSec(r, trs[r.Intn(3)], i)
+	}
 	var starts []int64 // times of deliveries (first ones and duplicates): a lifetime may have started there
 	for i := 0; i < nops; i++ {
-		ph, sec, tr := r.Intn(nph), r.Intn(nsec), trs[r.Intn(3)]
+		ph, sec, tr := r.Intn(nph), secs[r.Intn(nsec)], trs[r.Intn(3)]
 		pid := int32(r.Intn(10))
 		mode := 0
 		if tr == pb.TransportType_Prefix && r.Chance(1, 4) {
@@ -598,7 +811,7 @@ func c02RunWorld(out *vlib.Out, r *vlib.Rand, nOffers int) {
 		}
 		// which object is delivered: a new one, a new one with Valid already set, the one delivered before
 		obj := []byte{0, 0, 0, 0, 0, 0, 1, 2, 2, 2}[r.Intn(10)]
-		switch k := r.Intn(10); {
+		switch k := r.Intn(12); {
 		case k < 6:
 			w.applyObj('r', ph, sec, tr, pid, mode, now, obj)
 			starts = append(starts, now)
@@ -607,6 +820,14 @@ func c02RunWorld(out *vlib.Out, r *vlib.Rand, nOffers int) {
 			starts = append(starts, now)
 		case k < 9:
 			w.apply('m', ph, sec, tr, pid, mode, now)
+		case k < 11:
+			// a client of one of the registrations connects (accepted only if the registration is visible)
+			if len(w.regs) > 0 {
+				if r.Chance(1, 3) {
+					w.closeTunnels(false)
+				}
+				w.connect(out, w.regs[r.Intn(len(w.regs))], now, r.Chance(1, 4))
+			}
 		default:
 			// registrations on whole minutes, sweeps on the half minute: no record is ever exactly at a limit.
 			// Half of the sweeps are aimed half a minute before / after the moment a lifetime that started
@@ -767,7 +988,8 @@ func c02LifetimeWorld(out *vlib.Out, r *vlib.Rand) {
 	now := int64(0)
 	nreg := r.Range(1, 3)
 	for i := 0; i < nreg; i++ {
-		l := life{ph: r.Intn(2), sec: i, tr: trs[r.Intn(3)], pid: int32(r.Intn(10))}
+		l := life{ph: r.Intn(3), sec: i, tr: trs[r.Intn(3)], pid: int32(r.Intn(10))}
+		l.sec = w.pickSec(r, l.tr, i)
 		lives = append(lives, l)
 		kind := []byte{'r', 'r', 'r', 't'}[r.Intn(4)]
 		w.applyObj(kind, l.ph, l.sec, l.tr, l.pid, 0, now, []byte{0, 0, 1}[r.Intn(3)])
@@ -783,10 +1005,17 @@ func c02LifetimeWorld(out *vlib.Out, r *vlib.Rand) {
 			w.applyObj([]byte{'r', 't'}[r.Intn(2)], l.ph, l.sec, l.tr, l.pid, 0, now, []byte{0, 1, 2}[r.Intn(3)])
 			starts = append(starts, now)
 		}
-		if r.Chance(1, 3) {
+		switch r.Intn(6) {
+		case 0, 1:
 			w.apply('m', l.ph, l.sec, l.tr, l.pid, 0, now)
+		case 2, 3:
+			// used by a connection that reaches Proxy, once or twice; the tunnel finishes or stays open
+			for n := r.Range(1, 2); n > 0; n-- {
+				w.connect(out, w.find(l.ph, l.sec, l.tr), now, r.Chance(1, 3))
+			}
 		}
 	}
+	defer w.closeTunnels(true)
 	offerAll := func(kind string) {
 		for _, l := range lives {
 			reg := w.find(l.ph, l.sec, l.tr)
@@ -801,9 +1030,17 @@ func c02LifetimeWorld(out *vlib.Out, r *vlib.Rand) {
 		if at <= now {
 			at = now + 60*int64(r.Range(1, 400)) + 30
 		}
+		if r.Chance(1, 3) {
+			w.closeTunnels(r.Bool())
+		}
 		w.sweep = c02RandomSweep(w, r)
 		w.apply('s', 0, 0, 0, 0, 0, at)
 		now = (at/60 + 1) * 60
+		if r.Chance(1, 3) {
+			// the sweeper comes round again a minute later
+			w.apply('s', 0, 0, 0, 0, 0, now+30)
+			now += 60
+		}
 		offerAll("replay-after-sweep")
 		if r.Chance(1, 2) {
 			// delivered again after the sweep: the object of the earlier lifetime, or a new one; tracked only
@@ -1012,6 +1249,61 @@ func TestVerifC02(t *testing.T) {
 			f := w.flight(reg.sec, reg.tr, reg.prefixID, 0)
 			w.offer(out, c02Offer{kind: "replay-after-sweep", ph: reg.ph, tr: reg.tr, data: f, owner: reg, genuine: true, pid: reg.prefixID})
 		}
+	}
+	// corpus: the whole life of a registration, for every transport x every separator byte in the identifier
+	// (and '|' / NUL as its first byte, its last byte, twice): delivered (a third: tracked first, validated a
+	// minute later), a third used by a connection that reaches Proxy (the tunnel finishes at once; every
+	// fourth of those stays open across the sweeps), a third marked used only; sweep after 10.5 min (the
+	// unused ones are forgotten), after 7 h (all are), and once more a minute later; the genuine flight of
+	// every registration replayed after each sweep.
+	for _, tr := range []pb.TransportType{pb.TransportType_Min, pb.TransportType_Prefix, pb.TransportType_Obfs4} {
+		w := newC02World(1)
+		n := 0
+		add := func(sec int) {
+			ph := n % 3
+			if n%3 == 1 {
+				w.apply('t', ph, sec, tr, int32(n%10), 0, 0)
+			} else {
+				w.apply('r', ph, sec, tr, int32(n%10), 0, 0)
+			}
+			n++
+		}
+		add(0)
+		add(1)
+		add(2)
+		for bi := range c02Bytes {
+			add(w.specialSec(tr, bi, 0, 0))
+		}
+		for bi := 0; bi < 2; bi++ {
+			for pos := 1; pos <= 3; pos++ {
+				add(w.specialSec(tr, bi, pos, 0))
+			}
+		}
+		for i, reg := range w.regs {
+			if i%3 == 1 {
+				w.apply('r', reg.ph, reg.sec, reg.tr, reg.prefixID, 0, 60)
+			}
+		}
+		for i, reg := range w.regs {
+			switch i % 3 {
+			case 0:
+				w.connect(out, reg, 120, i%4 == 0)
+			case 1:
+				w.apply('m', reg.ph, reg.sec, reg.tr, reg.prefixID, 0, 120)
+			}
+		}
+		replay := func() {
+			for _, reg := range w.regs {
+				f := w.flight(reg.sec, reg.tr, reg.prefixID, 0)
+				w.offer(out, c02Offer{kind: "replay-after-sweep", ph: reg.ph, tr: reg.tr, data: f, owner: reg, genuine: true, pid: reg.prefixID})
+			}
+		}
+		w.apply('s', 0, 0, 0, 0, 0, 630)
+		replay()
+		w.apply('s', 0, 0, 0, 0, 0, 25230)
+		w.apply('s', 0, 0, 0, 0, 0, 25290)
+		replay()
+		w.closeTunnels(true)
 	}
 	for i, n := 0, vlib.Budget(120, 2400); i < n; i++ {
 		c02LifetimeWorld(out, r)
